@@ -11,6 +11,7 @@ import (
 	"sort"
 	"strings"
 	"testing"
+	"unicode/utf8"
 
 	"github.com/brutella/hc/db"
 	"pgregory.net/rapid"
@@ -99,6 +100,7 @@ func m5(ctrl *refctl.Controller, kSeal []byte, rawSealKey []byte, kSign []byte) 
 func (w *world) send(m msg) (label string, err error) {
 	cs := w.conns[m.Conn]
 	before := w.l.EntityFiles()
+	listedBefore := w.apiEntities()
 	var body []byte
 	expectStore := false
 	mustSucceed := false
@@ -389,6 +391,25 @@ func (w *world) send(m msg) (label string, err error) {
 		pk, _ := base64.StdEncoding.DecodeString(ent.PublicKey)
 		stored = ent.Name == used.ID && bytes.Equal(pk, used.LTPK)
 	}
+	// A name that the file name or the JSON document cannot hold byte for byte (hex key longer than a file name
+	// may be, or not valid UTF-8) is looked up through the store's own interface: what it returns under the
+	// delivered name is exactly the delivered name and key, or nothing.
+	unstorable := len(key) > 255
+	if unstorable || !utf8.ValidString(used.ID) {
+		stored = false
+		if e, gerr := w.l.DB.EntityWithName(used.ID); gerr == nil {
+			if e.Name != used.ID || !bytes.Equal(e.PublicKey, used.LTPK) {
+				return label, fmt.Errorf("after a genuine key exchange the store returns under the delivered name %q an entity named %q (key equal: %v) - not exactly what was delivered", used.ID, e.Name, bytes.Equal(e.PublicKey, used.LTPK))
+			}
+			stored = true
+		}
+	}
+	// whatever the store lists now and did not list before is exactly the delivered identity
+	for id := range w.apiEntities() {
+		if !listedBefore[id] && id != used.ID+"\x00"+hex.EncodeToString(used.LTPK) {
+			return label, fmt.Errorf("after a genuine key exchange for %q the store lists a pairing nobody delivered: %q", used.ID, id)
+		}
+	}
 	accepted := false
 	if !panicked && resp.Status == 200 {
 		if m6, perr := refctl.ParseSetupM6(resp.Body, refctl.SetupSessionKey(cs.srp.K), cs.srp.K); perr == nil && !m6.HasError && m6.State == 6 {
@@ -402,11 +423,15 @@ func (w *world) send(m msg) (label string, err error) {
 	}
 	if accepted {
 		label = m.Kind + ":accepted"
-		if !stored {
+		if unstorable && !stored {
+			stats.Count("accepted_but_name_too_long_for_the_store", 1)
+			label = m.Kind + ":accepted-unstorable"
+		} else if !stored {
 			return label, fmt.Errorf("genuine key exchange was acknowledged with M6 but the entity (%q, key) is not stored", used.ID)
 		}
 		for name := range after {
-			if name != key && after[name] != before[name] {
+			// (a name too long for a hex file name may be filed under any key: the listing above judges it)
+			if !unstorable && name != key && after[name] != before[name] {
 				return label, fmt.Errorf("genuine key exchange changed another stored entity %s", name)
 			}
 		}
@@ -426,6 +451,16 @@ func (w *world) send(m msg) (label string, err error) {
 		return label, fmt.Errorf("honest sequence start, verify, key-exchange with the right setup code was not completed (response %v, panic %v)", respSummary(resp), panicked)
 	}
 	return label, nil
+}
+
+// apiEntities lists the pairings through hc's own database interface: name, NUL, hex of the public key.
+func (w *world) apiEntities() map[string]bool {
+	out := map[string]bool{}
+	es, _ := w.l.DB.Entities()
+	for _, e := range es {
+		out[e.Name+"\x00"+hex.EncodeToString(e.PublicKey)] = true
+	}
+	return out
 }
 
 func respSummary(r *refctl.Response) string {
@@ -501,6 +536,11 @@ func TestC02Prop(t *testing.T) {
 		code := rapid.StringMatching(`[0-9]{3}-[0-9]{2}-[0-9]{3}`).Draw(t, "code")
 		ctrlID := rapid.OneOf(rapid.StringMatching(`[0-9A-F]{8}-[0-9A-F]{4}-[0-9A-F]{4}-[0-9A-F]{4}-[0-9A-F]{12}`), rapid.StringN(1, 10, 64)).Draw(t, "id")
 		ctrlID = strings.ToValidUTF8(ctrlID, "?")
+		// now and then a name of 110..300 arbitrary bytes: around 125 bytes the hex file name of the entity stops
+		// fitting into a file name, and bytes that are not UTF-8 do not survive the JSON document
+		if rapid.IntRange(0, 7).Draw(t, "long-name") == 0 {
+			ctrlID = string(rapid.SliceOfN(rapid.Byte(), 110, 300).Draw(t, "long-id"))
+		}
 		seed := rapid.SliceOfN(rapid.Byte(), 32, 32).Draw(t, "seed")
 		nconns := rapid.IntRange(1, 2).Draw(t, "nconns")
 		n := rapid.IntRange(1, 12).Draw(t, "nmsgs")
@@ -651,6 +691,26 @@ func TestC02Regress(t *testing.T) {
 		if err != nil {
 			stats.Fail("TestC02Regress", err.Error(), c.what)
 			t.Errorf("%s: %v", c.what, err)
+		}
+	}
+}
+
+// Names around the length at which the hex file name of an entity stops fitting into a file name, with bytes
+// that are not UTF-8: whatever the store holds afterwards is exactly what was delivered.
+func TestC02LongNames(t *testing.T) {
+	seed := bytes.Repeat([]byte{6}, 32)
+	honest := []msg{{0, "start", 0}, {0, "verify-right", 0}, {0, "exchange-genuine", 0}, {0, "start", 1}, {0, "verify-right", 1}, {0, "exchange-second-identity", 1}}
+	for i, n := range []int{20, 117, 118, 124, 125, 126, 200, 300} {
+		for j, prefix := range []string{"ctrl-", "ctrl-\xff\xfe\x80-"} {
+			name := prefix + strings.Repeat("c", n-len(prefix))
+			labels, err := runHistory("031-45-154", name, seed, 1, honest)
+			stats.Case(stats.Hash("longname", i, j), true, []string{"regress", "long-name"}, func() interface{} {
+				return map[string]interface{}{"name_bytes": n, "utf8": j == 0, "outcomes": labels}
+			})
+			if err != nil {
+				stats.Fail("TestC02LongNames", err.Error(), fmt.Sprintf("name of %d bytes, valid UTF-8: %v", n, j == 0))
+				t.Errorf("name of %d bytes (UTF-8 %v): %v", n, j == 0, err)
+			}
 		}
 	}
 }
